@@ -163,9 +163,10 @@ func c19stdFont() *sfnt.Font {
 // goroutine census
 
 var (
-	c19leaked   = map[string]bool{} // ids of goroutines already reported
-	c19goHeader = regexp.MustCompile(`^goroutine (\d+) \[([^\]]*)\]`)
-	c19frame    = regexp.MustCompile(`(?m)^seehuhn\.de/go/sfnt/opentype/gtab/builder\.([^\s(]+)`)
+	c19leakCount int
+	c19leaked    = map[string]bool{} // ids of goroutines already reported
+	c19goHeader  = regexp.MustCompile(`^goroutine (\d+) \[([^\]]*)\]`)
+	c19frame     = regexp.MustCompile(`(?m)^seehuhn\.de/go/sfnt/opentype/gtab/builder\.([^\s(]+)`)
 )
 
 // c19builderGoroutines returns the goroutines (other than the caller) that
@@ -203,6 +204,12 @@ func c19census(k *mon.Case, before int, what string) {
 	if runtime.NumGoroutine() <= before {
 		return
 	}
+	if c19leakCount >= 4 {
+		// The verdict of this worker is settled; waiting 2 s for every
+		// further leak would only exhaust the time budget.
+		k.Class("census:not-awaited-after-repeated-leaks")
+		return
+	}
 	// A goroutine counts as left behind when it is still there after 2 s of
 	// polling (and at least 200 polls, in case this process was not scheduled
 	// for a while).  One that is still running or runnable at that point is
@@ -237,6 +244,7 @@ func c19census(k *mon.Case, before int, what string) {
 					fn = f
 				}
 			}
+			c19leakCount++
 			k.Fail("leak", "c19:goroutine-leak:"+what+":"+fn, "%d goroutine(s) of the builder package are still alive %.1f s after Parse returned: %v", len(fresh), el.Seconds(), fresh)
 			return
 		}
@@ -426,7 +434,7 @@ func c19dump(ll gtab.LookupList) string {
 
 func runC19(c *mon.Ctx) {
 	// --- A: Parse(Explain(L)) == L --------------------------------------------
-	c.Stratum("roundtrip", c.N(2400, 200000), func(k *mon.Case) {
+	c.Stratum("roundtrip", c.N(2400, 48000), func(k *mon.Case) {
 		r := k.Rng
 		i := k.Index
 		tp := c19types[i%len(c19types)]
@@ -516,7 +524,7 @@ func runC19(c *mon.Ctx) {
 	})
 
 	// cmaps with non-printable characters (no-break space etc.), as real fonts have them
-	c.Stratum("roundtrip-nonprintable", c.N(300, 20000), func(k *mon.Case) {
+	c.Stratum("roundtrip-nonprintable", c.N(300, 6000), func(k *mon.Case) {
 		r := k.Rng
 		tp := c19types[k.Index%len(c19types)]
 		n := 4 + r.IntN(8)
